@@ -66,12 +66,12 @@ func c16MustFail(l CfgLit, r vlib.Req) (bool, string) {
 }
 
 func c16Judge(k c16Case) *vlib.Failure {
-	m, err := buildVia(k.Route, k.Cfg, false)
+	bm, err := buildViaH(k.Route, k.Cfg, false)
 	if err != nil {
 		return vlib.Failf("configuration of the C16 alphabet rejected (route %q): %v", routeNames[k.Route], err)
 	}
 	inner := &vlib.Noop{}
-	h := m.Wrap(inner)
+	h := bm.wrap(inner)
 	base := vlib.Serve(h, &inner.Calls, c16Baseline(k.Cfg), nil)
 	if base.Status/100 == 2 {
 		return vlib.Failf("baseline failing preflight (origin or method not allowed) got status %d", base.Status)
